@@ -344,4 +344,16 @@ theorem crash_start_ok_import {cfg : Cfg} {G : Block} (E : StaticOK cfg.st G) (h
   rw [hbusy] at h1
   exact (JI_crash E h1).2.2
 
+/-- a crash DURING Start inside an import window: every intermediate state of Start (`SInvJ`) is a state from which
+    boot + Start succeed and reach the node's whole chain -/
+theorem crash_during_start_ij {st : Static} {G : Block} (E : StaticOK st G) {ks : AMap.T Wid KsRec}
+    {chain : List Block} (hN : ChainOK (lenv st ks) G chain) (n : Nat) {w : Wid} {s0 : Store} {h : Nat}
+    {P : PStore} {V : PVol} (hS : SInvJ st ks chain w s0 h P V) (hKN : KeysNodup (ownOf ks)) (hw : w ∈ walletsOf ks) :
+    (Model.Persist.crash (envAt st chain) n P).ok = true ∧
+    IJ ((lenv st ks).ctx chain) w (Model.Persist.crash (envAt st chain) n P).P.led chain ∧
+    (Model.Persist.crash (envAt st chain) n P).V.led.best = tipMeta chain ∧
+    (Model.Persist.crash (envAt st chain) n P).V.tasks = requeue (Model.Persist.crash (envAt st chain) n P).P := by
+  have := crash_reaches_ij E hN (hN.take h) n hS.pks hKN hw hS.ij
+  exact ⟨this.1, this.2.2.2.1, this.2.2.2.2.1, this.2.2.2.2.2.1⟩
+
 end MW.Lemmas.Deepen4
